@@ -864,7 +864,10 @@ impl Indexable for ast::SimpleValue {
             }
             ast::SimpleValue::ClassValue(class_value) => {
                 let (name, reference_loc) = utils::identifier(&class_value.name()?, ctx)?;
-                let class_id = ctx.symbol_map.find_class(&name)?;
+                let Some(class_id) = ctx.symbol_map.find_class(&name) else {
+                    ctx.error(reference_loc.range, format!("class not found: {name}"));
+                    return None;
+                };
                 ctx.symbol_map.add_reference(class_id, reference_loc);
 
                 let class = ctx.symbol_map.record(class_id);
